@@ -1,0 +1,53 @@
+//go:build verif
+
+// Contracts for package beancount (machine-checked by /verif/engine; comment-only file).
+package beancount
+
+//@ def okPst(p *model.Posting) bool := p != nil && p.Account != nil
+//@ def okTrx(t *model.Transaction) bool := t != nil && (forall i int :: {t.Postings[i]} 0 <= i && i < len(t.Postings) ==> okPst(t.Postings[i]))
+//@ def okDay(d *journal.Day) bool := d != nil
+//@     && (forall i int :: {d.Transactions[i]} 0 <= i && i < len(d.Transactions) ==> okTrx(d.Transactions[i]))
+//@     && (forall i int :: {d.Openings[i]} 0 <= i && i < len(d.Openings) ==> d.Openings[i] != nil)
+//@     && (forall i int :: {d.Closings[i]} 0 <= i && i < len(d.Closings) ==> d.Closings[i] != nil)
+//
+// A journal can be transcoded when its days, transactions, postings and accounts are present and the
+// days own disjoint transaction slices (each day's slice is sorted in place).
+//@ def transcodable(j *journal.Journal) bool := j != nil && (forall i int :: {j.Days[i]} 0 <= i && i < len(j.Days) ==> okDay(j.Days[i]))
+//@     && (forall a int, b int :: {j.Days[a], j.Days[b]} 0 <= a && a < b && b < len(j.Days) ==> j.Days[a] != j.Days[b] && base(j.Days[a].Transactions) != base(j.Days[b].Transactions))
+//
+// writePosting: the amount written is the posting's VALUE in the valuation commodity (its quantity
+// only when no valuation commodity is given), next to the posting's own account.
+//@ func writePosting
+//@   requires okPst(p) && c != nil
+//@   callback Fprintf=0
+//@   ensures [C16] @value: tlen() == old(tlen()) + 1 && len(targ("Fprintf", 2, old(tlen()))) == 3
+//@        && typeIs(targ("Fprintf", 2, old(tlen()))[1], "decimal.Decimal") && dyn(targ("Fprintf", 2, old(tlen()))[1], "decimal.Decimal") == p.Value
+//
+// writeTrx: every posting of the transaction is written exactly once, in order, and nothing else.
+//@ func writeTrx
+//@   requires okTrx(t) && c != nil
+//@   callback writePosting=0
+//@   ensures [C16] @all: result == nil ==> tlen() == old(tlen()) + len(t.Postings)
+//@        && (forall k int :: {t.Postings[k]} 0 <= k && k < len(t.Postings) ==> targ("writePosting", 1, old(tlen()) + k) == t.Postings[k])
+//@   loop 1 invariant 0 <= $i && $i <= len($range) && $range == t.Postings && tlen() == old(tlen()) + $i
+//@   loop 1 invariant forall k int :: {t.Postings[k]} 0 <= k && k < $i ==> targ("writePosting", 1, old(tlen()) + k) == t.Postings[k]
+//
+// Transcode: days in the order of the journal; per day the transactions are sorted by
+// transaction.Compare (a permutation of the day's transactions: nothing lost, nothing duplicated) and
+// each is written exactly once in that order; `written` counts them.
+//@ func Transcode
+//@   requires [C14] @val: c != nil
+//@   requires transcodable(j)
+//@   modifies *
+//@   callback writeTrx=0
+//@   ghost written int = 0
+//@   loop 1 ghost-end written := written + len(day.Transactions)
+//@   ensures [C16] @count: result == nil ==> tlen() == old(tlen()) + written
+//@   loop 1 invariant 0 <= $i && $i <= len($range) && tlen() == old(tlen()) + written && c != nil && openValAccounts != nil
+//@   loop 1 invariant $range == j.Days && (forall i int :: {$range[i]} $i <= i && i < len($range) ==> okDay($range[i]))
+//@   loop 2 invariant 0 <= $i && $i <= len($range) && tlen() == entry(tlen()) && c != nil && openValAccounts != nil
+//@   loop 3 invariant 0 <= $i && $i <= len($range) && tlen() == entry(tlen()) && c != nil && openValAccounts != nil && okDay(day)
+//@   loop 4 invariant 0 <= $i && $i <= len($range) && tlen() == entry(tlen()) && c != nil && openValAccounts != nil && okDay(day)
+//@   loop 5 invariant [C16] @each: 0 <= $i && $i <= len($range) && $range == day.Transactions && okDay(day) && c != nil && openValAccounts != nil && tlen() == entry(tlen()) + $i
+//@        && (forall k int :: {$range[k]} 0 <= k && k < $i ==> targ("writeTrx", 1, entry(tlen()) + k) == $range[k])
+//@   loop 6 invariant 0 <= $i && $i <= len($range) && tlen() == entry(tlen()) && c != nil && openValAccounts != nil
